@@ -71,6 +71,17 @@ CHECKS = {
              'characters is matched by its live warning pattern.',
         note='Contract finder patterns as in C03. Trigger phrase tables are the oracle. "less & except" is accepted through its '
              'first word. Flags raised by Tract parsing (dup_lot etc.) are shape-checked in C14/C06 harnesses.'),
+    'C11': dict(
+        engine='S', category='other', design_ref='DESIGN.md §4 C11',
+        technique='CrossHair symbolic execution of the real layout hand-over (PLSSDesc -> PLSSParser -> ChunkParser) with symbolic '
+                  'channel, and of the copy_all / fallback branches of ChunkParser on provenance documents with contract finder patterns',
+        text='(i) copy_all requested through the init keyword, the config string, .config assignment or parse(layout=) with and '
+             'without commit, combined with 5 other settings, on 6 texts: exactly one tract whose description is the whole '
+             'preprocessed text. (ii) on the bounded document family under 11 modes: forced copy_all gives one tract with the entire '
+             'text; when the layout is deduced and the document has no Twp/Rge or no section segment, exactly one tract carries the '
+             'whole text and an error flag is present; in every mode no two tracts carry the complete text.',
+        note='"Entire text" for a deduced-layout fallback is compared up to the separators / cull words that clean-up strips at the '
+             'edges. Forced non-copy_all layouts are the user\'s mandate and are not expected to fall back. Contract patterns as in C03.'),
     'C12': dict(
         engine='M+Z+S', category='model_checking', design_ref='DESIGN.md §4 C12',
         technique='SMT (z3): exact bounded encoding of re matching + regular-language inclusion on the live unpacker '
